@@ -191,11 +191,17 @@ def sig_matches(pattern, sig):
 
 
 def load_known(prop_id):
-    if not os.path.exists(KNOWN_FINDINGS):
-        return []
-    with open(KNOWN_FINDINGS) as f:
-        data = json.load(f)
-    return [e for e in data.get("findings", []) if e.get("property") == prop_id]
+    """Entries of known_findings.json (plus, while a check is being developed, of
+    known_findings.d/<id>.json) for one property.  Read-only at run time."""
+    out = []
+    paths = [KNOWN_FINDINGS, os.path.join(VERIF, "known_findings.d", "%s.json" % prop_id)]
+    for path in paths:
+        if not os.path.exists(path):
+            continue
+        with open(path) as f:
+            data = json.load(f)
+        out.extend(e for e in data.get("findings", []) if e.get("property") == prop_id)
+    return out
 
 
 def classify(prop_id, sig):
